@@ -33,3 +33,7 @@ pub ghost struct Rest {
 pub open spec fn rest0() -> Rest {
     Rest { lower: Seq::empty(), strs: Seq::empty(), refs: Seq::empty() }
 }
+
+/// vacuity probe of the negated run (tools/rx.py --negate): never provable unless a function's
+/// assumptions are contradictory
+pub uninterp spec fn vac_probe(k: int) -> bool;
